@@ -1,5 +1,6 @@
 From Coq Require Extraction ExtrOcamlBasic.
-From OxiVerif Require Import Base.Conv IO.Circuit IO.Aiger IO.AigerParse IO.DimacsParse.
+From OxiVerif Require Import Base.Conv IO.Circuit IO.Aiger IO.AigerParse IO.DimacsParse
+  IO.TreeParse IO.NnfParse IO.DimacsSatParse.
 Extraction Language OCaml.
 Extraction "model.ml" conv_anchor
   Circuit.simplify Circuit.eval Circuit.apply_gate_map
@@ -8,4 +9,9 @@ Extraction "model.ml" conv_anchor
   Circuit.ok_answer_b Circuit.err_answer_b Circuit.lit_eqb
   Aiger.decode7 Aiger.encode7 Aiger.and_gate_bin Aiger.decode_gate Aiger.encode_gate
   AigerParse.parse_aiger AigerParse.print_aag AigerParse.print_aig AigerParse.wf_b AigerParse.default_map
-  DimacsParse.parse_cnf DimacsParse.print_cnf.
+  DimacsParse.parse_cnf DimacsParse.print_cnf
+  TreeParse.p_tree TreeParse.flatten TreeParse.print_tree TreeParse.print_vars TreeParse.print_ctree
+  TreeParse.acyclic_g TreeParse.valid_utf8
+  NnfParse.parse_nnf NnfParse.print_nnf NnfParse.print_nnf_vo NnfParse.wf_nnf_b
+  DimacsSatParse.parse_dimacs DimacsSatParse.print_sat_body DimacsSatParse.print_dimacs_vo
+  DimacsSatParse.sat_problem DimacsSatParse.sform_ok_b DimacsSatParse.print_sform.
